@@ -83,7 +83,13 @@ def parallel_cmds(cmds, timeout=900):
 
 def cached_dir(kind, key):
     d = os.path.join(BUILD, kind, key)
-    return d, os.path.exists(os.path.join(d, ".done"))
+    ok = os.path.exists(os.path.join(d, ".done"))
+    if ok:
+        try:
+            os.utime(d, None)      # least-recently-USED pruning
+        except OSError:
+            pass
+    return d, ok
 
 
 def mark_done(d):
@@ -123,7 +129,7 @@ def build_translator_plain():
     parallel_cmds(cmds)
     run_cmd(["gcc", "-o", exe] + [os.path.join(d, os.path.basename(s)[:-2] + ".o") for s in srcs] + ["-lpthread", "-lm"])
     mark_done(d)
-    prune_cache("xl_plain")
+    prune_cache("xl_plain", keep=6)
     return exe, key
 
 
